@@ -513,7 +513,7 @@ Lemma spec_ok_reads : forall c o, spec_ok c o = true ->
     (* the order between kinds and inside a kind is the required one; two literals never raise *)
     /\ lt_entry_ok a b (nthd (o_lt o) i j None) = true.
 Proof.
-  intros c o H ts i j Hi Hj a b. unfold spec_ok in H. apply andb_true_iff in H as [H _]. apply andb_true_iff in H as [H _]. apply andb_true_iff in H as [H _]. apply andb_true_iff in H as [H _]. unfold spec_base in H. fold ts in H.
+  intros c o H ts i j Hi Hj a b. unfold spec_ok in H. apply andb_true_iff in H as [H _]. apply andb_true_iff in H as [H _]. apply andb_true_iff in H as [H _]. apply andb_true_iff in H as [H _]. apply andb_true_iff in H as [H _]. unfold spec_base in H. fold ts in H.
   repeat (apply andb_true_iff in H as [H ?]).
   repeat split.
   - pose proof (forallb_idx ts _ H6 i Hi) as X. cbv beta in X.
@@ -535,7 +535,7 @@ Lemma spec_ok_family_reads : forall c o, spec_ok c o = true ->
     ~ (lt i j /\ lt j i)
     /\ (same_family (t j) (t k) = true -> lt i j -> lt j k -> lt i k).
 Proof.
-  intros c o H ts t lt i j k Hi Hj Hk F. unfold spec_ok in H. apply andb_true_iff in H as [H _]. apply andb_true_iff in H as [H _]. apply andb_true_iff in H as [H _]. apply andb_true_iff in H as [_ H].
+  intros c o H ts t lt i j k Hi Hj Hk F. unfold spec_ok in H. apply andb_true_iff in H as [H _]. apply andb_true_iff in H as [H _]. apply andb_true_iff in H as [H _]. apply andb_true_iff in H as [H _]. apply andb_true_iff in H as [_ H].
   unfold family_ok in H. fold ts in H. apply andb_true_iff in H as [H1 H2]. unfold lt. split.
   - intros [A B].
     pose proof (forallb_idx ts _ H1 i Hi) as X. cbv beta in X.
@@ -554,7 +554,7 @@ Lemma spec_ok_ne_reads : forall c o, spec_ok c o = true ->
   forall i j, (i < length (c_terms c))%nat -> (j < length (c_terms c))%nat ->
     nthd (o_ne o) i j false = negb (nthd (o_eq o) i j false).
 Proof.
-  intros c o H i j Hi Hj. unfold spec_ok in H. apply andb_true_iff in H as [H _]. apply andb_true_iff in H as [H _]. apply andb_true_iff in H as [_ H]. unfold ne_ok in H.
+  intros c o H i j Hi Hj. unfold spec_ok in H. apply andb_true_iff in H as [H _]. apply andb_true_iff in H as [H _]. apply andb_true_iff in H as [H _]. apply andb_true_iff in H as [_ H]. unfold ne_ok in H.
   apply andb_true_iff in H as [_ H].
   pose proof (forallb_idx (c_terms c) _ H i Hi) as X. cbv beta in X.
   pose proof (forallb_idx (c_terms c) _ X j Hj) as Y. cbv beta in Y. apply eqb_prop in Y. exact Y.
@@ -569,7 +569,7 @@ Lemma spec_ok_ops_reads : forall c o, spec_ok c o = true ->
     /\ op_entry_lax (option_map (fun v => v || key_same a b) (lt_required a b)) (nthd (o_le o) i j None) = true
     /\ op_entry_lax (option_map (fun v => v || key_same a b) (lt_required b a)) (nthd (o_ge o) i j None) = true.
 Proof.
-  intros c o H ts i j Hi Hj a b. unfold spec_ok in H. apply andb_true_iff in H as [_ H]. unfold ops_ok in H.
+  intros c o H ts i j Hi Hj a b. unfold spec_ok in H. apply andb_true_iff in H as [H _]. apply andb_true_iff in H as [_ H]. unfold ops_ok in H.
   fold ts in H. apply andb_true_iff in H as [_ H].
   pose proof (forallb_idx ts _ H i Hi) as X. cbv beta in X.
   pose proof (forallb_idx ts _ X j Hj) as Y. cbv beta zeta in Y.
